@@ -180,7 +180,6 @@ impl PageCache {
         }
 
         self.cursor = 0;
-        self.capacity = 0;
         remaining_frames
     }
 }
